@@ -101,3 +101,6 @@ package ws
 //@   modifies @wsst(w), w.shipWriteChannel.$chclosed
 //@ loop (w *WebsocketConnection).writeShipPump #0
 //@   invariant @WSOK(w) && !w.shipWriteChannel.$chclosed
+
+//@ func NewWebsocketConnection(conn, remoteSki) [C02]
+//@   ensures result != nil && result.conn == conn && result.remoteSki == remoteSki
